@@ -940,6 +940,7 @@ fn list_value(rng: &mut Rng) -> Vec<u8> {
         3 | 4 => 2,
         5 => 3,
         6 => 4,
+        _ if rng.chance(1, 25) => rng.range(30, 90),
         _ => rng.range(5, 9),
     } as usize;
     let mut v: Vec<u8> = Vec::new();
